@@ -49,6 +49,10 @@ def specs_for(ctx):
             ep.eval(rule)
         _queries(ep, rng, w.modules, 15)
         specs.append(ep.spec)
+    # worlds shaped like scanned trees: every package has an '__init__' module that imports and is imported
+    n_init = 25 if ctx.quick else 500
+    specs += rc.package_init_specs(rng, n_init)
+    meta["worlds_with_package_init_modules"] = n_init
     meta["random_worlds"] = n_worlds
     return specs, meta
 
